@@ -78,7 +78,7 @@ pub enum RefCtor {
     RuntimeErr(ErrClass),
 }
 
-pub const N_PROBES: usize = 40;
+pub const N_PROBES: usize = 41;
 
 #[derive(Clone, Copy, Debug, PartialEq, Eq)]
 #[repr(usize)]
@@ -123,6 +123,7 @@ pub enum Probe {
     DrawSteersControl,
     LoopDepth3,
     NestedLoopInWhile,
+    ContinuedAfterFailedStatement,
 }
 
 pub const PROBE_NAMES: [&str; N_PROBES] = [
@@ -166,6 +167,7 @@ pub const PROBE_NAMES: [&str; N_PROBES] = [
     "draw_steers_control_flow",
     "loop_depth_3",
     "loop_inside_while",
+    "continued_after_failed_let_or_row",
 ];
 
 #[derive(Clone, Debug)]
@@ -910,6 +912,7 @@ impl<'a> Interp<'a> {
         stmt_id: usize,
     ) -> Result<(), Stop> {
         if let Stop::Err(class) = &stop {
+            let continues = self.inp.continue_after_error;
             self.steps.push(RefStep {
                 call: None,
                 item: RefItem::RuntimeErr(*class),
@@ -919,15 +922,33 @@ impl<'a> Interp<'a> {
                 nx: 0,
                 nc: 0,
                 stmt_id,
-                continues: false,
+                continues,
             });
+            if continues {
+                // an entry of the row could not be evaluated: nothing was sent, the row is an
+                // error item, the run goes on with the next statement (or the next iteration)
+                self.probe(Probe::ContinuedAfterFailedStatement);
+                return Ok(());
+            }
         }
         Err(stop)
     }
 
     fn set_outputs(&mut self, ans: &[(SigId, OutVal)]) {
         self.outputs.clear();
-        for (id, v) in ans {
+        // (signals the test does not know first: where one of them has the name of a test
+        // signal, the test's own signal is the one a row reports)
+        let mut ordered: Vec<&(SigId, OutVal)> = ans.iter().collect();
+        ordered.sort_by_key(|(id, _)| matches!(id, SigId::Test(_)));
+        for (id, v) in ordered {
+            // a signal the test does not know that merely has the name of a test signal is
+            // not that signal (such devices only occur with programs that read no output)
+            if let SigId::Foreign(x) = id {
+                let name = &self.dut.foreign[*x as usize].spec.name;
+                if self.sig_names.iter().any(|n| n == name) {
+                    continue;
+                }
+            }
             let name = match id {
                 SigId::Test(i) => self.sig_names[*i as usize].clone(),
                 SigId::Foreign(x) => self.dut.foreign[*x as usize].spec.name.clone(),
@@ -983,7 +1004,20 @@ impl<'a> Interp<'a> {
                     if self.while_depth > 0 && self.loop_depth > 0 {
                         self.probe(Probe::LetInWhileInLoop);
                     }
-                    let v = self.eval(e).map_err(|s| self.stmt_err(s))?;
+                    let v = match self.eval(e) {
+                        Ok(v) => v,
+                        Err(Stop::Err(class)) if self.inp.continue_after_error => {
+                            // the statement failed: an error item for the pulling next(),
+                            // nothing is bound, the run goes on with the next statement
+                            let _ = self.stmt_err(Stop::Err(class));
+                            if let Some(last) = self.steps.last_mut() {
+                                last.continues = true;
+                            }
+                            self.probe(Probe::ContinuedAfterFailedStatement);
+                            continue;
+                        }
+                        Err(s) => return Err(self.stmt_err(s)),
+                    };
                     if self.frame_counters.last().unwrap().as_deref() == Some(name.as_str()) {
                         // how many iterations follow is deliberately left open
                         return Err(Stop::Unspecified(format!(
